@@ -71,6 +71,7 @@ type dirRepoUpload struct {
 	dr        *dirRepo
 	sessionID string
 	locked    bool // created and closed by a method that holds the repo lock
+	internal  bool // written by the registry itself, not tracked as an upload session
 }
 
 // NewDir returns a directory store.
@@ -492,11 +493,14 @@ func (dr *dirRepo) blobCreate(locked bool, opts ...BlobOpt) (BlobCreator, string
 		dr:        dr,
 		sessionID: sessionID,
 		locked:    locked,
+		internal:  conf.internal,
 	}
 	dr.timeMod = time.Now()
 	// the next check of the index reads index.json again
 	dr.timeIndex = time.Time{}
-	dr.uploads.Set(sessionID, bc)
+	if !conf.internal {
+		dr.uploads.Set(sessionID, bc)
+	}
 	return bc, sessionID, nil
 }
 
@@ -848,8 +852,10 @@ func (dru *dirRepoUpload) Write(p []byte) (int, error) {
 		return 0, fmt.Errorf("writer is closed, session %s%.0w", dru.sessionID, types.ErrNotFound)
 	}
 	// verify session still exists and update last write time
-	if _, err := dru.dr.uploads.Get(dru.sessionID); err != nil {
-		return 0, fmt.Errorf("session expired %s: %w", dru.sessionID, err)
+	if !dru.internal {
+		if _, err := dru.dr.uploads.Get(dru.sessionID); err != nil {
+			return 0, fmt.Errorf("session expired %s: %w", dru.sessionID, err)
+		}
 	}
 	n, err := dru.w.Write(p)
 	dru.size += int64(n)
@@ -901,7 +907,11 @@ func (dru *dirRepoUpload) Close() error {
 	if !dru.locked {
 		dru.dr.mu.Unlock()
 	}
-	err = errors.Join(err, dru.dr.uploads.Delete(dru.sessionID))
+	if dru.internal {
+		err = errors.Join(err, dru.delete())
+	} else {
+		err = errors.Join(err, dru.dr.uploads.Delete(dru.sessionID))
+	}
 	dru.dr.log.Debug("blob created", "repo", dru.dr.name, "digest", dru.d.Digest().String(), "err", err)
 	return err
 }
@@ -910,6 +920,9 @@ func (dru *dirRepoUpload) Close() error {
 func (dru *dirRepoUpload) Cancel() error {
 	dru.mu.Lock()
 	defer dru.mu.Unlock()
+	if dru.internal {
+		return dru.delete()
+	}
 	return dru.dr.uploads.Delete(dru.sessionID)
 }
 
